@@ -148,7 +148,7 @@ theorem get_healthy (cfg : Cfg) (r : Route) (h : Healthy cfg r) (c : Cluster) (d
       · congr 1
         apply hfold _ _ _ c hall
         intro c0 v hv
-        simp only [hv, if_true]
+        simp only [hv, if_true, ite_self]
       · rfl
 
 /-- replication in a healthy cluster is acknowledged, stores the entry on the owner and keeps the mirror -/
